@@ -333,7 +333,7 @@ func convertOne(t *vlib.T, st *lpStats, sp *convSpace, G, h, A, b, c []float64) 
 	}
 	ref := solveGeneral(nv, toRows(G, p), ratVec(h), toRows(A, q), ratVec(b), ratVec(c))
 	// preconditions of Simplex on the converted program
-	s := newStdMatrix(m, n, wantA)
+	s := newStdMatrix(m, n, wantA, true)
 	preOK := s.rank == m && !s.zeroCol
 	ans := lpAnswer{class: ref.class, opt: ref.opt, precondOK: preOK}
 	optF, x, err, pan := callSimplex(wantC, m, n, wantA, wantB, nil)
